@@ -202,14 +202,19 @@ PROPS["C07"] = dict(
                "shrink, sort, binary search, reads past the end and at huge indices; initial capacity 0..40) the length, the identity of every element "
                "and the set of destroyed elements equal those of a list model; refused operations must change nothing and leave the value with the caller",
     level_note="indices in (len+600, SIZE_MAX/8) are not generated: whether a multi-GiB realloc succeeds is the machine's answer; >= SIZE_MAX/8 must be refused",
-    rule="operation history on one array; non-trivial = a reallocation happened AND the history has a null gap, an overwrite of an occupied slot or a multi-element delete; distinct by hash of the operation list",
+    rule="operation history on one array; non-trivial = a reallocation happened AND the history has a null gap, an overwrite of an occupied slot or a multi-element delete; distinct by hash of the operation list; the same rule for histories on a bare array_list (mode 'al')",
     quick=[dict(mode="hist", cases=100000, workers=8),
-           dict(mode="small", enum=True, size=46656, workers=4)],
+           dict(mode="small", enum=True, size=46656, workers=4),
+           dict(mode="al", cases=60000, workers=4)],
     thorough=[dict(mode="hist", cases=8000000, workers=16),
               dict(mode="small", enum=True, size=46656, workers=4),
-              dict(mode="hist", fuzz=True, secs=240, jobs=8, max_len=512)],
-    min_labels=dict(quick=dict(null_gap=20000, refused=20000, realloc=20000, overwrite=15000, sort=10000, bsearch=3000, del_range=4000, huge_index=8000, zero_capacity=10000)),
-    assumptions=["elements are int nodes or null; the comparator orders by value with nulls first"],
+              dict(mode="al", cases=4000000, workers=16),
+              dict(mode="hist", fuzz=True, secs=240, jobs=8, max_len=512),
+              dict(mode="al", fuzz=True, secs=120, jobs=8, max_len=512)],
+    min_labels=dict(quick=dict(null_gap=20000, refused=20000, realloc=20000, overwrite=15000, sort=10000, bsearch=3000, del_range=4000, huge_index=8000, zero_capacity=10000,
+                               al_null_gap=10000, al_refused=10000, al_overwrite=8000, al_del_range=8000, al_sort=8000, al_grew=8000)),
+    assumptions=["elements are int nodes or null; the comparator orders by value with nulls first",
+                 "mode 'al' drives arraylist.h directly with opaque tokens and a counting free function (no json_object involved)"],
 )
 
 PROPS["C17"] = dict(
